@@ -506,7 +506,10 @@ func call(cl *client, c *Case) (outcome, error) {
 	case "SetPCControl":
 		fn = func(u uhppote.IUHPPOTE) error { _, err := u.SetPCControl(c.ID, c.n(0) != 0); return err }
 	case "SetInterlock":
-		fn = func(u uhppote.IUHPPOTE) error { _, err := u.SetInterlock(c.ID, types.Interlock(uint8(c.n(0)))); return err }
+		fn = func(u uhppote.IUHPPOTE) error {
+			_, err := u.SetInterlock(c.ID, types.Interlock(uint8(c.n(0))))
+			return err
+		}
 	case "ActivateKeypads":
 		var readers map[uint8]bool
 		if !c.NilMap {
